@@ -85,6 +85,11 @@ def cq_task(t):
                                                  C.cq_bool(t.get("allrep", True)), C.cq_z(t.get("mvnow", 0)), cq_rs(t.get("all")))
 
 
+def cq_mis(obs):
+    """per operation / sync: positions in its log of the API calls whose pushed servers differ from the file"""
+    return C.cq_list([cq_nats([i for i, e in enumerate(o["log"] or []) if e.get("e") == "a" and e.get("mis")]) for o in obs])
+
+
 def cq_fix(c):
     f = c.get("fix") or {}
     return "(mkfx %s %s %s %s)" % tuple(C.cq_bool(f.get(k, False)) for k in ("weights", "uab", "batchrep", "endprep"))
@@ -93,13 +98,13 @@ def cq_fix(c):
 def case_to_coq(c):
     if c["fam"] == "cfg":
         obs = C.cq_list(["(%s, %d, %s)" % (cq_log(o["log"]), ERR.get(o["err"], 2), C.cq_bool(o["enabled"])) for o in c["obs"]])
-        return "cfg_case %d %s %s %s %s %s %s" % (c["id"], C.cq_bool(c["plus"]), cq_fix(c), C.cq_list(["(%s)" % cq_op(o) for o in c["ops"]]),
-                                            cq_nats(c["rfail"]), cq_nats(c["afail"]), obs)
+        return "cfg_case %d %s %s %s %s %s %s %s" % (c["id"], C.cq_bool(c["plus"]), cq_fix(c), C.cq_list(["(%s)" % cq_op(o) for o in c["ops"]]),
+                                               cq_nats(c["rfail"]), cq_nats(c["afail"]), obs, cq_mis(c["obs"]))
     if c["fam"] == "ctl":
         obs = C.cq_list(["(%s, %s, %s, %s, %s)" % (cq_log(o["log"]), C.cq_bool(o["enabled"]), C.cq_bool(o["ready"]),
                                                    C.cq_bool(o["batch"]), C.cq_bool(o["reported"])) for o in c["obs"]])
         return "ctl_case %d %s %s %s %s %s %s" % (c["id"], C.cq_bool(c["plus"]), cq_fix(c), C.cq_list([cq_task(t) for t in c["tasks"]]),
-                                            cq_nats(c["rfail"]), cq_nats(c["afail"]), obs)
+                                            cq_nats(c["rfail"]), cq_nats(c["afail"]), obs) + " " + cq_mis(c["obs"])
     raise ValueError(c["fam"])
 
 
@@ -158,6 +163,7 @@ VERDICT = {
     5: ("reload-failure-not-reported", "the Reload that closes the batch failed and was not reported on any resource (no Warning event)"),
     8: ("reload-failure-not-reported", "the handler's own Reload failed, its object still exists, and nothing was reported on it (no Warning event)"),
     9: ("reload-failure-not-reported", "the Reload of updateAllConfigs failed and was reported neither on a resource nor on the ConfigMap/GlobalConfiguration"),
+    10: ("api-push-differs-from-file", "the sync wrote the file, pushed a different server list for the same upstream through the Plus API, the call succeeded and no reload followed"),
     7: ("change-not-applied", "outside any batch the sync changed a file but neither called Reload afterwards nor pushed the change through the Plus API"),
     6: ("reload-failure-not-reported", "a Reload that failed while endpoints were updated was only logged (no Warning event on the resources using the service)"),
 }
@@ -200,7 +206,14 @@ def judge(run, cases, res):
                 run.failing({"kind": "panic", "fam": c["fam"]}, [c], "the code under test panicked in case %d: %s" % (cid, o["panic"][:200]),
                             theorem="Reload.Cases (panic)")
         if c["fam"] == "cfg":
-            s1, s2, s4 = row[6:9]
+            s1, s2, s4, s5 = row[6:10]
+            if s5 >= 0:
+                site = op_site(c["ops"][s5])
+                bad = [e for e in c["obs"][s5]["log"] if e.get("mis")]
+                run.failing({"kind": "api-push-differs-from-file", "site": site}, [shrink_cfg(c, s5)],
+                            "case %d op %d (%s) wrote the file, pushed a different server list for the same upstream through the Plus API, "
+                            "the call succeeded and no reload followed: %s" % (cid, s5, site, json.dumps(bad)[:400]),
+                            theorem="Reload.Cases.push_same_ok (C12: pushes the same change through the API)")
             if s1 >= 0:
                 site = op_site(c["ops"][s1])
                 run.failing({"kind": "reload-while-held", "site": site}, [shrink_cfg(c, s1)],
@@ -225,17 +238,22 @@ def judge(run, cases, res):
                 kind, what = VERDICT.get(v, ("spec", "specification fails"))
                 t = c["tasks"][i]
                 ended = (i > 0 and c["obs"][i - 1]["batch"]) and not c["obs"][i]["batch"]
-                if v == 5 or (ended and v in (2, 3)):
+                j = i           # the batch that ends here is syncs j..i
+                while j > 0 and c["obs"][j - 1]["batch"]:
+                    j -= 1
+                batch_tasks = c["tasks"][j:i + 1]
+                if ended and v == 3 and all(x["kind"] == "endpointslice" and not x.get("found") for x in batch_tasks):
+                    # no task of the batch could have touched anything NGINX reads (only EndpointSlices no resource uses):
+                    # not the by-design class F16a (a non-endpointslice task, or a referenced EndpointSlice, raises the flag)
+                    site = "batch-end-unreferenced-endpointslices-only"
+                elif v == 5 or (ended and v in (2, 3)):
                     site = "batch-end"
                 elif v == 9:
                     site = "updateAllConfigs"
                 elif ended and v == 4:
                     # the batch is syncs j..i; a ConfigMap task inside it makes updateAllConfigs the intended ending
                     # (then the reload without change is the by-design F16a class), otherwise the stale flag did it
-                    j = i
-                    while j > 0 and c["obs"][j - 1]["batch"]:
-                        j -= 1
-                    site = "batch-end" if any(x["kind"] == "configmap" for x in c["tasks"][j:i + 1]) else "batch-end-updateall"
+                    site = "batch-end" if any(x["kind"] == "configmap" for x in batch_tasks) else "batch-end-updateall"
                 elif v == 6:
                     site = "task-endpointslice"
                 else:
